@@ -131,6 +131,13 @@ func (e *Ev) specExpr(s string) Term {
 		}
 		nq := len(e.qvars)
 		e.qvars = append(e.qvars, binds...)
+		if e.qindex == nil {
+			e.qindex = map[string][2]string{}
+		}
+		var smtNames []string
+		for _, n := range names {
+			smtNames = append(smtNames, e.bound[n].S)
+		}
 		body := e.specExpr(rest[i+2:])
 		e.qvars = e.qvars[:nq]
 		for _, n := range names {
@@ -140,7 +147,33 @@ func (e *Ev) specExpr(s string) Term {
 				delete(e.bound, n)
 			}
 		}
-		return Term{S: fmt.Sprintf("(%s (%s) %s)", q, strings.Join(binds, " "), body.S), Sort: sBool, T: boolT}
+		// Re-index: a bound variable j used as s[j] is replaced by the absolute array index
+		// p = off(s)+j, and the element access becomes the trigger. Matching on (+ off j) would
+		// need arithmetic in the pattern, which E-matching cannot do.
+		bs := body.S
+		var pats []string
+		for k, nm := range smtNames {
+			ci, ok := e.qindex[nm]
+			if !ok {
+				continue
+			}
+			delete(e.qindex, nm)
+			off, sel := ci[0], ci[1]
+			if strings.Contains(off, nm) || binds[k] != fmt.Sprintf("(%s Int)", nm) {
+				continue
+			}
+			p := nm + "p"
+			bs = strings.ReplaceAll(bs, "(+ "+off+" "+nm+")", p)
+			bs = strings.ReplaceAll(bs, nm+")", "(- "+p+" "+off+"))")
+			bs = strings.ReplaceAll(bs, nm+" ", "(- "+p+" "+off+") ")
+			bs = strings.ReplaceAll(bs, "(- "+p+" "+off+")p", p) // undo accidental hits on p itself
+			binds[k] = fmt.Sprintf("(%s Int)", p)
+			pats = append(pats, strings.ReplaceAll(sel, "(+ "+off+" "+nm+")", p))
+		}
+		if len(pats) > 0 && q == "forall" {
+			return Term{S: fmt.Sprintf("(%s (%s) (! %s :pattern (%s)))", q, strings.Join(binds, " "), bs, strings.Join(pats, " ")), Sort: sBool, T: boolT}
+		}
+		return Term{S: fmt.Sprintf("(%s (%s) %s)", q, strings.Join(binds, " "), bs), Sort: sBool, T: boolT}
 	}
 	if parts := splitTop(s, "<==>"); len(parts) > 1 {
 		a := e.specExpr(parts[0])
@@ -267,6 +300,13 @@ func (e *Ev) specCall(name string, n *ast.CallExpr) (Term, bool) {
 func (e *Ev) specFunc(b *Block, n *ast.CallExpr) Term {
 	if b.Kind == "ghost" {
 		return e.ghostFunc(b, n)
+	}
+	if hasFlag(b, "opaque") && !e.u.bv {
+		nm := b.Target[:strings.Index(b.Target, "(")]
+		if !e.u.revealed(strings.TrimSpace(nm)) {
+			// opaque in units that only pass the predicate along: an uninterpreted symbol
+			return e.ghostFunc(b, n)
+		}
 	}
 	hdr := b.Target
 	i := strings.Index(hdr, "(")
